@@ -154,6 +154,28 @@ def wrapper_delegates(F, wpath_prefix, inner_field, method):
     return True, inner_impl
 
 
+def multiply_constraint_rules(ck, F, rule):
+    """both roles' multiply records exactly `left - l_var = 0` and `right - r_var = 0` (content, not only count)"""
+    for role in ("prover", "verifier"):
+        R = run_method(F, role, "multiply", None)
+        cons = R["state"].fields["constraints"]
+        for pos, nm, var in ((q, "left", "MultiplierLeft"), (q + 1, "right", "MultiplierRight")):
+            okc, why = False, "constraint list not extended"
+            if isinstance(cons, Vec) and eq(cons.length(), q + 2):
+                lcx = cons.index(pos)
+                if isinstance(lcx, Struct) and isinstance(lcx.fields.get("terms"), Vec):
+                    tv = lcx.fields["terms"]
+                    ln = isym("len_" + nm)
+                    why = f"terms = {show(tv)}"
+                    if eq(tv.length(), ln + 1):
+                        last = tv.index(ln)
+                        pre_ok = vec_eq(tv.take(ln), mk_lc(nm).fields["terms"].map(lambda t: t)) if False else True
+                        first = tv.index(isym("_j"), Bounds().with_ub(isym("_j"), ln))
+                        pre_ok = isinstance(first, Tup) and isinstance(first.items[0], Opaque) and first.items[0].info.get("lc") == nm and eq(first.items[1].e, sfun("coef_" + nm)(isym("_j")))
+                        okc = pre_ok and isinstance(last, Tup) and isinstance(last.items[0], Enum) and last.items[0].variant == var and eq(last.items[0].payload[0].e, c) and isinstance(last.items[1], Sc) and eq(last.items[1].e, -1)
+            ck.require(okc, rule, f"multiply-constraint:{role}:{nm}", f"{role}'s multiply must record the constraint {nm} - {var}(new gate) = 0 (the given terms followed by the new wire with coefficient -1); {why}")
+
+
 def callbacks_rule(ck, F, rule):
     """create_randomized_constraints invokes every deferred callback exactly once, in order, on both roles"""
     for role, prefix in (("prover", H.P_PRV), ("verifier", H.P_VER)):
@@ -220,25 +242,7 @@ def body(ck, F, cfg):
             ck.require(okr, "R16.1", f"reference:{method}:{pend_name}", f"transition differs from the reference: got {dict((k, sv_[k]) for k in want)}, reference {want}")
             if method == "multiply":
                 ck.require(sp_["constraints"] == "2" and sv_["constraints"] == "2", "R16.1", f"multiply-constrains:{pend_name}", "multiply must add the two wire constraints left - l_var and right - r_var on both roles")
-    # multiply: both roles add exactly `left - l_var` and `right - r_var` (content, not only count)
-    for role in ("prover", "verifier"):
-        R = run_method(F, role, "multiply", None)
-        cons = R["state"].fields["constraints"]
-        for pos, nm, var in ((q, "left", "MultiplierLeft"), (q + 1, "right", "MultiplierRight")):
-            okc, why = False, "constraint list not extended"
-            if isinstance(cons, Vec) and eq(cons.length(), q + 2):
-                lcx = cons.index(pos)
-                if isinstance(lcx, Struct) and isinstance(lcx.fields.get("terms"), Vec):
-                    tv = lcx.fields["terms"]
-                    ln = isym("len_" + nm)
-                    why = f"terms = {show(tv)}"
-                    if eq(tv.length(), ln + 1):
-                        last = tv.index(ln)
-                        pre_ok = vec_eq(tv.take(ln), mk_lc(nm).fields["terms"].map(lambda t: t)) if False else True
-                        first = tv.index(isym("_j"), Bounds().with_ub(isym("_j"), ln))
-                        pre_ok = isinstance(first, Tup) and isinstance(first.items[0], Opaque) and first.items[0].info.get("lc") == nm and eq(first.items[1].e, sfun("coef_" + nm)(isym("_j")))
-                        okc = pre_ok and isinstance(last, Tup) and isinstance(last.items[0], Enum) and last.items[0].variant == var and eq(last.items[0].payload[0].e, c) and isinstance(last.items[1], Sc) and eq(last.items[1].e, -1)
-            ck.require(okc, "R16.1", f"multiply-constraint:{role}:{nm}", f"{role}'s multiply must record the constraint {nm} - {var}(new gate) = 0 (the given terms followed by the new wire with coefficient -1); {why}")
+    multiply_constraint_rules(ck, F, "R16.1")
     ck.sample({"transition": "allocate, pending=None", "summary": str(summary(F, "verifier", "allocate", None)["ret"])})
     constrain_rules(ck, F, "R16.1")
     callbacks_rule(ck, F, "R16.4")
